@@ -164,7 +164,7 @@ func (p *Prog) callResultTypes(c *ssa.Call, idx int, seen map[ssa.Value]bool, fs
 			if idx >= len(ret.Results) {
 				continue
 			}
-			rv := ret.Results[idx]
+			rv := res(ret, idx)
 			if !types.IsInterface(rv.Type()) {
 				ts.add(rv.Type())
 				continue
